@@ -25,6 +25,7 @@ import (
 	"flag"
 	"fmt"
 	"os"
+	"runtime/debug"
 	"sort"
 	"strings"
 	"sync"
@@ -173,6 +174,9 @@ func query(n *chain.Node, q abci.RequestQuery) (code string) {
 	defer func() {
 		if e := recover(); e != nil {
 			code = "panic"
+			if os.Getenv("C13_DEBUG") != "" {
+				fmt.Fprintf(os.Stderr, "query %s@%d panic: %v\n%s\n", q.Path, q.Height, e, debug.Stack())
+			}
 		}
 	}()
 	return fmt.Sprint(n.App.Query(q).Code)
@@ -180,6 +184,18 @@ func query(n *chain.Node, q abci.RequestQuery) (code string) {
 
 func (a *actor) act(point string, i int) {
 	r, n := a.r, a.e.run.N
+	if point == "pre-begin" { // experiment switch: drop one cache before every block (attribution of a divergence)
+		switch os.Getenv("C13_CLEAR") {
+		case "ctx":
+			sdk.GlobalCtxCache.Purge()
+		case "vbc":
+			sdk.VbCCache.Purge()
+		case "session":
+			pocketTypes.ClearSessionCache(pocketTypes.GlobalSessionCache)
+		case "app":
+			n.App.VerifAppsKeeper().ApplicationCache.Purge()
+		}
+	}
 	if a.kind == "none" || n.Height < chain.FirstModernHeight {
 		return
 	}
@@ -333,31 +349,47 @@ func probe() {
 	fmt.Printf("mode %s => code=%s cap=100 key=%s ver=%s pre=%s post=%s\n", mode, code, ad.String()[:8], versionRecord(n, 2, ad), pre, post)
 }
 
-func twin(role string, c cfg) {
-	e := boot(c)
+// genHistory draws the chain data of one history (no node involved: the generator's view only).
+func genHistory(c cfg) *chainx.History {
+	w, o := chain.DefaultWorld(chainID, 3, 3, 2, 4)
+	e := &env{w: w, o: o, c: c}
 	r := gen.New(c.hseed)
-	a := &actor{e: e, kind: c.kind, r: gen.New(c.hseed ^ 0x5bd1e995)}
-	t := e.o.GenesisTime
+	t := o.GenesisTime
 	var ent int64
+	h := &chainx.History{}
 	for bi := 0; bi < c.blocks; bi++ {
-		n := e.run.N
-		b, descs := e.w.GenBlock(r, t, n.Height+1, 2)
+		height := int64(bi + 1)
+		b, descs := w.GenBlock(r, t, height, 2)
 		// keep block times short so that 2-minute unstaking periods end inside a session now and then
 		b.Time = t.Add([]time.Duration{time.Second, 20 * time.Second, time.Minute, 3 * time.Minute}[r.Intn(4)])
 		t = b.Time
-		xs, xk := e.extraTxs(r, n.Height+1, &ent)
+		xs, xk := e.extraTxs(r, height, &ent)
 		b.Txs = append(b.Txs, xs...)
 		var ks []string
 		for _, d := range descs {
 			ks = append(ks, d.Kind)
 		}
 		ks = append(ks, xk...)
+		h.AddBlock(b, ks)
+	}
+	return h
+}
+
+func twin(role string, c cfg, histPath string) {
+	h, err := chainx.LoadHistory(histPath)
+	if err != nil {
+		panic(err)
+	}
+	e := boot(c)
+	a := &actor{e: e, kind: c.kind, r: gen.New(c.hseed ^ 0x5bd1e995)}
+	for bi := range h.Blocks {
+		b, ks := h.Block(bi)
 		var hook chainx.Hook
 		if role == "B" {
 			hook = a.act
 		}
 		res := e.run.RunBlock(b, hook)
-		n = e.run.N
+		n := e.run.N
 		st := n.Dump(nil)
 		kd := "-"
 		if len(ks) > 0 {
@@ -383,13 +415,14 @@ func main() {
 	ccap := flag.Int("cap", 0, "internal")
 	restarts := flag.Int("restarts", 0, "internal")
 	only := flag.String("only", "", "restrict to one traffic kind")
+	histPath := flag.String("hist", "", "internal: history file")
 	flag.Parse()
 	if *role == "probe" {
 		probe()
 		return
 	}
 	if *role == "A" || *role == "B" {
-		twin(*role, cfg{*kind, *hseed, *blocks, *ccap, *restarts})
+		twin(*role, cfg{*kind, *hseed, *blocks, *ccap, *restarts}, *histPath)
 		return
 	}
 	t := gen.NewTrace(*out)
@@ -417,6 +450,13 @@ func main() {
 		}
 		cfgs[i] = cfg{k, *seed*1000003 + uint64(i)*7919 + 13, nb, []int{1, 1, 2, 100}[pr.Intn(4)], []int{0, 3, 5, 7}[pr.Intn(4)]}
 	}
+	// chain data is generated once, sequentially (the codec is process-global), before any twin starts
+	chain.ModernGlobals()
+	for i, c := range cfgs {
+		if err := genHistory(c).Save(fmt.Sprintf("%s.h%d.json", *out, i)); err != nil {
+			panic(err)
+		}
+	}
 	sem := make(chan struct{}, 8)
 	var wg sync.WaitGroup
 	for i := range cfgs {
@@ -426,7 +466,9 @@ func main() {
 			sem <- struct{}{}
 			defer func() { <-sem }()
 			c := cfgs[i]
-			args := []string{"-kind", c.kind, "-hseed", fmt.Sprint(c.hseed), "-blocks", fmt.Sprint(c.blocks), "-cap", fmt.Sprint(c.cacheCap), "-restarts", fmt.Sprint(c.restarts)}
+			hp := fmt.Sprintf("%s.h%d.json", *out, i)
+			defer os.Remove(hp)
+			args := []string{"-hist", hp, "-kind", c.kind, "-hseed", fmt.Sprint(c.hseed), "-blocks", fmt.Sprint(c.blocks), "-cap", fmt.Sprint(c.cacheCap), "-restarts", fmt.Sprint(c.restarts)}
 			a, e1 := chainx.Child(childEnv, append([]string{"-role", "A"}, args...)...)
 			b, e2 := chainx.Child(childEnv, append([]string{"-role", "B"}, args...)...)
 			results[i] = result{a, b, e1, e2}
